@@ -47,14 +47,14 @@ pub fn gen_small(rng: &mut Rng, tier: Tier, pkg: Pkg, n_extra: usize, max_items:
     let mut items = vec![];
     for _ in 0..n_items {
         let len = *rng.pick(&[0usize, 1, 5, 100, 255, 256, 1000, 4096, 5000, 70_000]);
-        items.push(Item { len, ent: *rng.pick(&Ent::ALL), hint: *rng.pick(&Hint::ALL), src: Src::Mem, dup_of: None });
+        items.push(Item { len, ent: *rng.pick(&Ent::ALL), hint: *rng.pick(&Hint::ALL), src: Src::Mem, dup_of: None, cat_of: None });
     }
     let content = ContentCase { seed: rng.next(), comp, cached: false, items };
     let mut extra = vec![];
     for _ in 0..n_extra {
         let n = rng.range(1, 4) as usize;
         let items = (0..n)
-            .map(|_| Item { len: *rng.pick(&[3usize, 300, 5000]), ent: *rng.pick(&Ent::ALL), hint: *rng.pick(&Hint::ALL), src: Src::Mem, dup_of: None })
+            .map(|_| Item { len: *rng.pick(&[3usize, 300, 5000]), ent: *rng.pick(&Ent::ALL), hint: *rng.pick(&Hint::ALL), src: Src::Mem, dup_of: None, cat_of: None })
             .collect();
         extra.push(ContentCase { seed: rng.next(), comp: Comp::pick(rng, tier), cached: false, items });
     }
@@ -88,7 +88,7 @@ pub fn gen_small(rng: &mut Rng, tier: Tier, pkg: Pkg, n_extra: usize, max_items:
     if n_items >= 2 {
         indexes.push(IndexDef { name: "files_tail".into(), store: 0, offset: 1, count: n_items as u32 - 1 });
     }
-    let dir = DirCase { seed: rng.next(), vstores: vec![indexed], stores: vec![files, misc], indexes };
+    let dir = DirCase { seed: rng.next(), vstores: vec![indexed], stores: vec![files, misc], indexes, defer: 0 };
     ContCase { content, dir, pkg, extra }
 }
 
@@ -277,9 +277,15 @@ pub fn create_loose(case: &ContCase, dir: &Path, location: &dyn Fn(usize, &str) 
     let mut m = ManifestPackCreator::new(vendor(), Default::default());
     m.add_pack(ddata, location(0, &dname));
     let mut names = vec![dname.clone()];
-    for (i, (fname, data)) in pack_files.into_iter().enumerate() {
-        m.add_pack(data, location(i + 1, &fname));
-        names.push(fname);
+    // the content packs are recorded in the manifest in REVERSE id order (n, n-1, .., 1): lookups must go by pack id,
+    // not by position in the manifest
+    let mut recorded: Vec<(usize, String, jbk::creator::PackData)> = pack_files.into_iter().enumerate().map(|(i, (f, d))| (i + 1, f, d)).collect();
+    for (_, fname, _) in &recorded {
+        names.push(fname.clone());
+    }
+    recorded.reverse();
+    for (id, fname, data) in recorded {
+        m.add_pack(data, location(id, &fname));
     }
     let mname = if concat_to.is_some() { "manifest.jbkm" } else { "c.jbk" };
     let mut mfile = std::fs::OpenOptions::new().read(true).write(true).create(true).truncate(true).open(dir.join(mname)).map_err(|e| e.to_string())?;
